@@ -69,9 +69,9 @@ VARIANTS: list[Variant] = [
     # ---------------------------------------------------------------- C02
     V('b-star-pathname-guard', 'break', ['C02'], P, "        if self.pathname:\n            if self.after_start and not self.dot:\n                star = self.path_star_dot2", "        if self.pathname and self.extend:\n            if self.after_start and not self.dot:\n                star = self.path_star_dot2", '_STAR', "globmatch('a/b', '*') becomes True without EXTGLOB"),
     V('b-qmark-unrestricted', 'break', ['C02', 'C03'], P, "                current.append(self._restrict_sequence() + _QMARK)\n            elif c == '/':\n                if self.pathname:\n                    self.set_start_dir()", "                current.append(_QMARK)\n            elif c == '/':\n                if self.pathname:\n                    self.set_start_dir()", '_QMARK', "globmatch('a/b', 'a?b') becomes True"),
-    V('b-no-set-start-dir', 'break', ['C02', 'C03'], P, "                if self.pathname:\n                    self.set_start_dir()\n                    self.clean_up_inverse(current)", "                if self.pathname:\n                    self.clean_up_inverse(current)", 'sep-run', "globmatch('a/.b', 'a/*') becomes True"),
-    V('b-no-consume-sep', 'break', ['C02'], P, "                    current.append(self.sep + _ONE_OR_MORE)\n                    self.consume_path_sep(i)\n                    self.matchbase = False", "                    current.append(self.sep + _ONE_OR_MORE)\n                    self.matchbase = False", 'sep-run', "globmatch('a/b', 'a//b') becomes False"),
-    V('b-matchbase-not-cleared', 'break', ['C02'], P, "                    current.append(self.sep + _ONE_OR_MORE)\n                    self.consume_path_sep(i)\n                    self.matchbase = False", "                    current.append(self.sep + _ONE_OR_MORE)\n                    self.consume_path_sep(i)", 'sep-run', "globmatch('x/a/b', 'a/b', MATCHBASE) becomes True"),
+    V('b-no-set-start-dir', 'break', ['C02', 'C03'], P, "                if self.pathname:\n                    self.set_start_dir()\n                    self.clean_up_inverse(current)", "                if self.pathname:\n                    self.clean_up_inverse(current)", 'separator-token', "globmatch('a/.b', 'a/*') becomes True"),
+    V('b-no-consume-sep', 'break', ['C02'], P, "                    current.append(self.sep + _ONE_OR_MORE)\n                    self.consume_path_sep(i)\n                    self.matchbase = False", "                    current.append(self.sep + _ONE_OR_MORE)\n                    self.matchbase = False", 'separator-token', "globmatch('a/b', 'a//b') becomes False"),
+    V('b-matchbase-not-cleared', 'break', ['C02'], P, "                    current.append(self.sep + _ONE_OR_MORE)\n                    self.consume_path_sep(i)\n                    self.matchbase = False", "                    current.append(self.sep + _ONE_OR_MORE)\n                    self.consume_path_sep(i)", 'separator-token', "globmatch('x/a/b', 'a/b', MATCHBASE) becomes True"),
     V('b-sequence-no-abort', 'break', ['C02', 'C07'], P, "            elif c == '/':\n                if self.pathname:\n                    raise StopIteration\n                value = c", "            elif c == '/':\n                value = c", 'abort-on-slash', "globmatch('a/b', 'a[/]b') becomes True"),
     V('b-globstar-pred', 'break', ['C02', 'C05'], P, "self.globstar = self.pathname and (self.globstarlong or bool(flags & GLOBSTAR))", "self.globstar = self.globstarlong or bool(flags & GLOBSTAR)", 'self.globstar', "fnmatch-mode `**` handling changes; definite assignment of `capture` breaks"),
     V('b-matchbase-prefix', 'break', ['C02', 'C16'], P, "        if p and (self.matchbase or self.extmatchbase):\n            result = prepend + result", "        if p and self.matchbase:\n            result = prepend + result", 'implicit-prefix', "PurePath('a/b/x').match('x') becomes False"),
